@@ -12,6 +12,10 @@ package eng
 //            point to the outer side;
 //   NEIGH-3  every value parameter reaches a stored element, a store index or a loop bound;
 //   NEIGH-4  (Laplacian) the neighbour lookup and the neighbour count of an update use the index being updated;
+//   NEIGH-6  (normals) the operation has no magic thresholds: normals are scale-free, so no float comparison of a
+//            quantity computed from the mesh against a non-zero constant may decide anything (a face skipped below an
+//            absolute size makes the result depend on the units of the mesh); NaN tests and comparisons with 0 are
+//            the only data-dependent decisions;
 //   NEIGH-5  (Laplacian) an update is computed from the working array only — it never reads the input attribute
 //            again, so iteration k starts from the result of iteration k−1 ("iterations" compose).
 
@@ -180,6 +184,58 @@ func AnalyseNeighbourOp(fn *ssa.Function, spec NeighSpec, cfg ShapeConfig) Shape
 		if nc == 0 {
 			res.add("NEIGH-2", false, dst, "no cross product found: the face-normal idiom is not recognised")
 		}
+	}
+	// NEIGH-6
+	if spec.Normals {
+		nz, nonzero := 0, 0
+		var first ssa.Instruction
+		ssau.AllInstrs(fn, func(in ssa.Instruction) {
+			b, ok := in.(*ssa.BinOp)
+			if !ok {
+				return
+			}
+			switch b.Op {
+			case token.LSS, token.LEQ, token.GTR, token.GEQ, token.EQL, token.NEQ:
+			default:
+				return
+			}
+			bt, ok := b.X.Type().Underlying().(*types.Basic)
+			if !ok || bt.Info()&types.IsFloat == 0 {
+				return
+			}
+			for _, pr := range [][2]ssa.Value{{b.X, b.Y}, {b.Y, b.X}} {
+				k, ok := pr[1].(*ssa.Const)
+				if !ok || k.Value == nil {
+					continue
+				}
+				// the other side must come from the mesh (not a parameter-only expression)
+				fromMesh := false
+				for d := range backward(pr[0], true) {
+					if _, ok := readOf(d); ok {
+						fromMesh = true
+					}
+				}
+				if !fromMesh {
+					continue
+				}
+				nz++
+				if k.Float64() != 0 {
+					nonzero++
+					if first == nil {
+						first = b
+					}
+				}
+			}
+		})
+		d := "no quantity computed from the mesh is compared with a non-zero constant (" + itoa(nz) + " comparisons with 0): the normals do not depend on the scale of the mesh"
+		if nonzero > 0 {
+			d = "a quantity computed from the mesh is compared with a non-zero constant: an absolute threshold makes the normals depend on the scale of the mesh (small faces are treated differently from large ones)"
+		}
+		var at ssa.Instruction = dst
+		if first != nil {
+			at = first
+		}
+		res.add("NEIGH-6", nonzero == 0, at, d)
 	}
 	// NEIGH-3
 	deps := map[ssa.Value]bool{}
